@@ -92,6 +92,11 @@ func (c CurlyRouter) matchesRouteByPathTokens(routeTokens, requestTokens []strin
 				if matchesRemainder {
 					break
 				}
+			} else if closing := strings.Index(routeToken, "}"); closing != -1 && closing < len(routeToken)-1 {
+				// parameter followed by a literal suffix, e.g. {name}.json ; the suffix must be present
+				if !strings.HasSuffix(requestToken, routeToken[closing+1:]) {
+					return false, 0, 0
+				}
 			}
 		} else { // no { prefix
 			if requestToken != routeToken {
